@@ -1,6 +1,6 @@
 (* C11Check.v — judges observed per-call deliveries of the real writer::Normalize.
    The monitor `c11_ok` is written against the property text, independently of Model/Normalize.v. *)
-From CV Require Import Model.Base Model.Events Model.Contract Model.Normalize Check.Verdict.
+From CV Require Import Model.Base Model.Events Model.Contract Model.Normalize Proofs.NormalizeP2 Check.Verdict.
 
 Record ncase := mk_ncase {
   nc_events : list mev;
@@ -100,5 +100,8 @@ Definition verdict (id : N) (c : ncase) : list (list N) :=
   let m := nrun (nc_events c) in
   let same := list_eqb (list_eqb mev_eqb) m (nc_calls c) in
   let valid := contract_prefix (map snd (nc_events c)) in
-  if valid then [vrow id 1 (judge (c11_ok (nc_events c) (nc_calls c)) same 0)]
+  if valid then
+    (* sub-check 2: the hypothesis of the lossless theorems (Props/C11.v) holds on this contract-abiding stream *)
+    [vrow id 1 (judge (c11_ok (nc_events c) (nc_calls c)) same 0);
+     vrow id 2 (if accepts_run ninit (nc_events c) then (0, 0) else (3, 0))]
   else [vrow id 1 (4, 0)].
